@@ -45,6 +45,7 @@ type Sink struct {
 	obs      *os.File
 	rep      Report
 	distinct map[string]bool
+	perSig   map[string]int
 	maxSamples int
 }
 
@@ -78,7 +79,12 @@ func (s *Sink) StatN(key string, n int) { s.rep.Stats[key] += n }
 func (s *Sink) Note(n string)   { s.rep.Notes = append(s.rep.Notes, n) }
 
 func (s *Sink) Violate(sig, detail string, c string, replay any) {
-	if len(s.rep.Violations) < 50 {
+	// at most two examples per signature, so that one frequent signature cannot hide the others
+	if s.perSig == nil {
+		s.perSig = map[string]int{}
+	}
+	s.perSig[sig]++
+	if s.perSig[sig] <= 2 && len(s.rep.Violations) < 400 {
 		s.rep.Violations = append(s.rep.Violations, Violation{Signature: sig, Detail: detail, Case: c, Replay: replay})
 	}
 }
